@@ -57,7 +57,7 @@ def kernel_level(r, quick):
     lines, expect = [], []
     keys = set()
     special = [0.0, -0.0, 0.5, -0.5, 1.5, 2.5, -0.49, 0.49, 1e-9, -1e-9, 1e18, -1e18, 3e30, float("inf"), float("-inf"), float("nan")]
-    for _ in range(60 if quick else 600):
+    for _ in range(C.T(60, 600)):
         nd = r.choice([1, 2, 3, 4])
         sizes = [r.choice([1, 2, 3, 5, 10, 31, 100, 1000]) for _ in range(nd)]
         space = {f"x{i}": np.arange(k) for i, k in enumerate(sizes)}
@@ -123,7 +123,7 @@ def kernel_level(r, quick):
 
 
 def backend_runs(r, quick):
-    specs = bkgen.all_optimizer_scenarios(r, 6 if quick else 40, constraint_p=0.45)
+    specs = bkgen.all_optimizer_scenarios(r, C.T(6, 40), constraint_p=0.45)
     fails, keys, samples, n_nan = [], set(), [], 0
     kdis, klines, kexp = [], [], []
     for spec in specs:
@@ -173,10 +173,10 @@ def run():
     chk.assumptions.append("float expressions feeding the kernels (simplex reflection, PSO velocity, spiral rotation, DE mutant, pattern offsets) are oracle inputs; "
                            "NoNan on them is audited on every recorded conv2pos call")
     from . import localgen
-    localgen.add_to(chk, C.rng("C01-local"), 8 if C.tier() != "thorough" else 80, constraint_p=0.3)
-    localgen.add_grid_to(chk, C.rng("C01-grid"), 30 if C.tier() != "thorough" else 300, constraint_p=0.3)
-    localgen.add_pt_to(chk, C.rng("C01-pt"), 20 if C.tier() != "thorough" else 200, constraint_p=0.3)
-    localgen.add_pattern_to(chk, C.rng("C01-pattern"), 20 if C.tier() != "thorough" else 200, constraint_p=0.3, nonfinite_p=0.0)
-    localgen.add_powell_to(chk, C.rng("C01-powell"), 20 if C.tier() != "thorough" else 200, constraint_p=0.3, nonfinite_p=0.0)
+    localgen.add_to(chk, C.rng("C01-local"), C.T(8, 80), constraint_p=0.3)
+    localgen.add_grid_to(chk, C.rng("C01-grid"), C.T(30, 300), constraint_p=0.3)
+    localgen.add_pt_to(chk, C.rng("C01-pt"), C.T(20, 200), constraint_p=0.3)
+    localgen.add_pattern_to(chk, C.rng("C01-pattern"), C.T(20, 200), constraint_p=0.3, nonfinite_p=0.0)
+    localgen.add_powell_to(chk, C.rng("C01-powell"), C.T(20, 200), constraint_p=0.3, nonfinite_p=0.0)
     scen.shutdown_manager()
     return chk.finish()
